@@ -15,13 +15,13 @@ open Ufw.Model.Slip (Snk SrcEv)
 open Ufw.Spec.Regp (Frame MType wire errorResponse metaFrame)
 open Ufw.Props.C08 (reqOf Fits Emits)
 
-/-- for EVERY source content (octets and errors in any order), transport, block size B > F and
-    allocation script: what `regp_recv` keeps of a frame never exceeds the B - F octets behind the
+/-- for EVERY source content (octets and errors in any order), transport, block size (also one that is not
+    larger than the RPFrame structure: nothing is kept then) and allocation script: what `regp_recv` keeps of a frame never exceeds the B - F octets behind the
     RPFrame structure of the block -/
-theorem stored_le_capacity (p : Inst) (hcap : 0 < p.cfg.B - p.cfg.F) (b : Block)
+theorem stored_le_capacity (p : Inst) (b : Block)
     (h : (regp_recv p).2.1.frame = some b) : b.raw.length ≤ p.cfg.B - p.cfg.F := by
   rcases hch : channelRecv p.cfg p.src with ⟨chan, got, rest⟩
-  simp only [regp_recv, hch, csRun_eq p.cfg p.al hcap got, csAfter] at h
+  simp only [regp_recv, hch, csRun_eq p.cfg p.al got, csAfter] at h
   by_cases hg : got = []
   · cases chan <;> simp [hg] at h
   · by_cases hal : p.al.script.head?.getD false = true
@@ -50,10 +50,10 @@ theorem stored_le_capacity (p : Inst) (hcap : 0 < p.cfg.B - p.cfg.F) (b : Block)
 /-- the ledger: after `regp_recv`, whatever the input, the number of blocks handed out and not yet
     released has grown by exactly one if a frame is returned and not at all otherwise - in
     particular a channel error (which returns no frame) has released the block it had obtained -/
-theorem ledger (p : Inst) (hcap : 0 < p.cfg.B - p.cfg.F) :
+theorem ledger (p : Inst) :
     (regp_recv p).2.2.al.live = p.al.live + (if (regp_recv p).2.1.frame.isSome then 1 else 0) := by
   rcases hch : channelRecv p.cfg p.src with ⟨chan, got, rest⟩
-  simp only [regp_recv, hch, csRun_eq p.cfg p.al hcap got, csAfter]
+  simp only [regp_recv, hch, csRun_eq p.cfg p.al got, csAfter]
   by_cases hg : got = []
   · cases chan <;> simp [hg]
   · by_cases hal : p.al.script.head?.getD false = true
@@ -74,18 +74,18 @@ theorem ledger (p : Inst) (hcap : 0 < p.cfg.B - p.cfg.F) :
 
 /-- a channel error returns no frame (so, by `ledger`, holds no block) -/
 theorem channel_error_no_frame (p : Inst) (e : Err) (got : List Octet) (rest : List SrcEv)
-    (hch : channelRecv p.cfg p.src = (some e, got, rest)) (hcap : 0 < p.cfg.B - p.cfg.F) :
+    (hch : channelRecv p.cfg p.src = (some e, got, rest)) :
     (regp_recv p).1 = some e ∧ (regp_recv p).2.1.frame = none ∧ (regp_recv p).2.2.al.live = p.al.live := by
-  obtain ⟨h1, h2, h3, _, _⟩ := recv_chan_error p e got rest hch hcap
+  obtain ⟨h1, h2, h3, _, _⟩ := recv_chan_error p e got rest hch
   exact ⟨h1, by rw [h2], h3⟩
 
 /-- the documented free call releases the returned block exactly once: the ledger is back where
     it was before the receive, and a second call changes nothing -/
-theorem free_releases_once (p : Inst) (hcap : 0 < p.cfg.B - p.cfg.F) :
+theorem free_releases_once (p : Inst) :
     let r := regp_recv p
     let f1 := regp_free r.2.2 r.2.1
     f1.1.al.live = p.al.live ∧ f1.2.frame = none ∧ regp_free f1.1 f1.2 = f1 := by
-  have hl := ledger p hcap
+  have hl := ledger p
   simp only [regp_free]
   cases hf : (regp_recv p).2.1.frame with
   | none => simp [hf] at hl ⊢; exact hl
@@ -127,7 +127,7 @@ theorem overflow_reply (p : Inst) (raw : List Octet) (rest : List SrcEv) (h : Hd
     (regp_recv p).1 = none ∧
     (regp_recv p).2.2.snk.got = p.snk.got ++ wire p.cfg.serial (errorResponse (reqOf h) 4 ((p.cfg.B - p.cfg.F) % 2 ^ 32)) := by
   have hcap : 0 < p.cfg.B - p.cfg.F := by simp only [RP_HEADER_SIZE] at h16; omega
-  obtain ⟨hmf, _, _, hreply⟩ := recv_overflow p raw rest hch hcap hal hbig
+  obtain ⟨hmf, _, _, hreply⟩ := recv_overflow p raw rest hch hal hbig
   have htk : (raw.take (p.cfg.B - p.cfg.F)).take RP_HEADER_SIZE = raw.take RP_HEADER_SIZE := by
     rw [List.take_take]; congr 1; omega
   rw [htk] at hreply
@@ -141,7 +141,7 @@ theorem overflow_reply (p : Inst) (raw : List Octet) (rest : List SrcEv) (h : Hd
 
 /-- an allocation failure is answered - for a request - with the busy response; nothing is held -/
 theorem busy_reply (p : Inst) (raw : List Octet) (rest : List SrcEv) (h : Hdr) (off : Nat)
-    (hch : channelRecv p.cfg p.src = (none, raw, rest)) (hcap : 0 < p.cfg.B - p.cfg.F)
+    (hch : channelRecv p.cfg p.src = (none, raw, rest))
     (hne : raw ≠ []) (hal : p.al.script.head?.getD false = true)
     (hph : parse_header (raw.take RP_HEADER_SIZE) = .ok (h, off)) (ht : h.type = 0 ∨ h.type = 2)
     (hroom : Fits p.snk (wire p.cfg.serial (errorResponse (reqOf h) 6 0))) :
@@ -149,7 +149,7 @@ theorem busy_reply (p : Inst) (raw : List Octet) (rest : List SrcEv) (h : Hdr) (
     (regp_recv p).2.2.al.live = p.al.live ∧
     (regp_recv p).1 = none ∧
     (regp_recv p).2.2.snk.got = p.snk.got ++ wire p.cfg.serial (errorResponse (reqOf h) 6 0) := by
-  obtain ⟨hmf, _, hal', hreply⟩ := recv_busy p raw rest hch hcap hne hal
+  obtain ⟨hmf, _, hal', hreply⟩ := recv_busy p raw rest hch hne hal
   have hreq : is_request h = true := by rcases ht with ht | ht <;> simp [is_request, ht]
   have hem := Ufw.Props.C08.resp0_wire p.cfg p.snk h 6 0 ht (by omega) (by simp [Ufw.Spec.Regp.carriesValue]) hroom
   simp only [send_early_response, hph, hreq, Bool.not_true, Bool.false_eq_true, ↓reduceIte] at hreply
@@ -162,7 +162,7 @@ theorem busy_reply (p : Inst) (raw : List Octet) (rest : List SrcEv) (h : Hdr) (
 /-- a frame shorter than a header - including the empty frame, for which no block is obtained - is
     reported as bad header encoding: error id EBADMSG and the META message EHEADERENC -/
 theorem short_frame_reply (p : Inst) (raw : List Octet) (rest : List SrcEv)
-    (hch : channelRecv p.cfg p.src = (none, raw, rest)) (hcap : 0 < p.cfg.B - p.cfg.F)
+    (hch : channelRecv p.cfg p.src = (none, raw, rest))
     (hal : p.al.script.head?.getD false = false) (hshort : raw.length < RP_HEADER_MIN_SIZE)
     (hfit : raw.length ≤ p.cfg.B - p.cfg.F)
     (hroom : Fits p.snk (wire p.cfg.serial (metaFrame 1))) :
@@ -175,7 +175,7 @@ theorem short_frame_reply (p : Inst) (raw : List Octet) (rest : List SrcEv)
     obtain ⟨hmf, _, hal', hreply⟩ := recv_empty p rest hch
     refine ⟨by rw [hmf], ?_, fun _ => ⟨by rw [hmf], by rw [hal']⟩⟩
     have := congrArg Prod.snd hreply; simp only at this; rw [this]; exact hem.2
-  · obtain ⟨hmf, _, _, _, _, hreply⟩ := recv_stored p raw rest hch hcap hne hal hfit
+  · obtain ⟨hmf, _, _, _, _, hreply⟩ := recv_stored p raw rest hch hne hal hfit
     have hpf : parse_frame raw = (.error .ebadmsg, none) := by
       simp [parse_frame, parse_header, hshort, parse_frame_rest]
     rw [hpf] at hmf hreply
